@@ -265,8 +265,8 @@ class C01(Property):
             data = b'' if case['data'] == '-' else bytes.fromhex(case['data'])
             e, d = eval_obf((key, data))
             return [] if d == wc.hexs(data) else [Violation('C01-obfuscation-roundtrip', 'decode(encode(x)) != x', case, observed=d)]
-        vals = parse_message(case['values'])
         idx = next((i for i, s in enumerate(table) if f'{s["name"]}.{s["dir"]}' == case['class']), case['idx'])
+        vals = wc.parse_message(case['values'], table[idx])
         o = eval_case((table, idx, vals))
         vs = [Violation(sig, what, case, observed=obs) for sig, what, obs in o.get('mon', [])]
         if o['enc'].startswith('err'):
@@ -284,45 +284,6 @@ class C01(Property):
                     vs.append(Violation('C01-layout', 'bytes differ from the pinned layout', case,
                                         observed=o['enc'][:300], required=out[0][:300]))
         return vs
-
-
-def parse_message(text: str):
-    toks = text.split()
-    pos = 1
-
-    def val():
-        nonlocal pos
-        t = toks[pos]
-        pos += 1
-        if t == '_':
-            return None
-        if t == 'N' or t == 'I':
-            pos += 1
-            return (t, int(toks[pos - 1]))
-        if t == 'B':
-            pos += 1
-            return ('B', toks[pos - 1] == '1')
-        if t == 'S':
-            k = int(toks[pos])
-            cps = toks[pos + 1:pos + 1 + k]
-            pos += 1 + k
-            return ('S', ''.join(chr(int(c)) for c in cps))
-        if t == 'Y':
-            pos += 1
-            h = toks[pos - 1]
-            return ('Y', b'' if h == '-' else bytes.fromhex(h))
-        if t == 'P':
-            pos += 4
-            return ('P', tuple(int(x) for x in toks[pos - 4:pos]))
-        if t == 'A':
-            k = int(toks[pos])
-            pos += 1
-            return ('A', [val() for _ in range(k)])
-        if t == 'R':
-            raise ValueError('record replay needs the class name; use the schema')
-        raise ValueError(t)
-    n = int(toks[0])
-    return [val() for _ in range(n)]
 
 
 PROPERTY = C01()
